@@ -468,6 +468,8 @@ func (c *vCase) run(ci int, variant string) *vRow {
 		MinProbability: c.minProb,
 	}
 	finalExpiry := int32(c.height) + int32(c.finalD)
+	ls, _ := lastHopPayloadSize(restr, finalExpiry, lnwire.MilliSatoshi(c.amt))
+	row.LastSize = ls
 
 	path, prob, err := findPath(
 		&graphParams{
@@ -537,8 +539,6 @@ func (c *vCase) run(ci int, variant string) *vRow {
 	row.TotalTL = rt.TotalTimeLock
 	row.TotFees = uint64(rt.TotalFees())
 	row.Recv = uint64(rt.ReceiverAmt())
-	ls, _ := lastHopPayloadSize(restr, finalExpiry, lnwire.MilliSatoshi(c.amt))
-	row.LastSize = ls
 
 	// The real onion construction input: payload bytes per hop.
 	sp, err := rt.ToSphinxPath()
